@@ -90,6 +90,9 @@ def newRunIdSys (r : Root) (cur id : String) : List RSys :=
 /-- `SetRunId(new)` with current id `cur` (`changeReplId` renames the current
     directory when the new id has none) -/
 def setRunIdSys (r : Root) (cur new : String) : List RSys :=
+  -- "" and "?" name no replication id: ignored before anything else (/repo 02e084c; before it a "?" with a
+  -- current directory reached changeReplId and renamed the directory to <base>/?)
+  if !realId new then [] else
   if cur == "" || !r.has cur then newRunIdSys r cur new
   else if new == "" || r.has new then newRunIdSys r cur new
   else [RSys.renameDir cur new] ++ newRunIdSys (r.applySys (.renameDir cur new)) cur new
@@ -129,5 +132,34 @@ def serveRoot (r : Root) (id : String) (verify : Bool) (off : Nat) : Option (Byt
   match r.get id with
   | some fs => serve fs verify off
   | none => none
+
+/-! ### a stream writer left OPEN across an id-level operation (session 5)
+
+  `newRunId` scans the new directory first and closes the old index — and the writer attached to
+  it — afterwards; `DelRunId` removes the directory, then resets the index. The writer's `closeAof`
+  runs AFTER the directory-level syscalls: the header rewrite goes through the open descriptor
+  (it follows a renamed file; into an unlinked inode it has no effect), the removal of an empty
+  live segment goes by the old path. -/
+
+/-- the file operation of the late close of live segment `g`, header rewrite torn after `k` bytes -/
+def lateCloseOp (g : DSeg) (k : Nat) : FsOp :=
+  if g.data.isEmpty then .remove (aofName g.left) else .pwriteHdr (aofName g.left) ((closedHeader g.data).take k)
+
+/-- the directory in which the late close of a writer of `cur` takes effect after `SetRunId(new)`:
+    after a RENAME (there is a current directory, the new id has none) the header rewrite follows
+    the descriptor into the new directory and the removal of an empty segment (old path) hits
+    nothing; without a rename it is the old directory -/
+def lateCloseTarget (r : Root) (cur new : String) (g : DSeg) : Option String :=
+  if (!(cur == "" || !r.has cur) && !(new == "" || r.has new)) && realId new then
+    (if g.data.isEmpty then none else some new)
+  else some cur
+
+def lateCloseRoot (r : Root) (tgt : Option String) (g : DSeg) (k : Nat) : Root :=
+  match tgt with
+  | none => r
+  | some id =>
+    match r.get id with
+    | some fs => r.set id (fs.apply (lateCloseOp g k))
+    | none => r
 
 end GunYu.StoreFsX
